@@ -24,8 +24,8 @@ PROPERTY = "C15"
 LEVEL = "exploration"
 ops.AVOID_NODE_OUTPUTS_ON_GRAPH_INPUTS = True
 TIERS = {
-    "quick": {"wall": 40, "chunk": 60, "shrink_budget": 400, "shrink_wall": 60},
-    "thorough": {"wall": 600, "chunk": 200, "shrink_budget": 800, "shrink_wall": 240},
+    "quick": {"wall": 32, "optimize_wall": 8, "chunk": 60, "shrink_budget": 400, "shrink_wall": 60},
+    "thorough": {"wall": 600, "optimize_wall": 90, "chunk": 200, "shrink_budget": 800, "shrink_wall": 240},
 }
 RULE = (
     "each run = one seeded history over the Engine A world (bootstrap + 20-70 ops) biased towards adding unnamed and explicitly named "
@@ -230,7 +230,11 @@ def op_namefix(w: World, a, b, c, d):
     m = w.pick(w.models, a)
     if m is None:
         return None
-    return NameFixPass()(m)
+    # one long-lived pass object per history (a pass object may be applied any number of times)
+    nf = w.__dict__.get("_namefix_pass")
+    if nf is None:
+        nf = w.__dict__["_namefix_pass"] = NameFixPass()
+    return nf(m)
 
 
 ops.OPS.setdefault("namefix", op_namefix)
@@ -246,6 +250,7 @@ def run_namefix_on_generated(case: dict, stats: dict):
         stats[k] = stats.get(k, 0) + n
 
     found: list = []
+    shared_pass = NameFixPass()  # the same pass object is applied to every model of the case
     for mi, spec in enumerate(case.get("models", [])):
         rng = random.Random(spec["seed"])
         suffix = "|unsorted-model" if spec["params"].get("unsorted") else ""
@@ -263,56 +268,83 @@ def run_namefix_on_generated(case: dict, stats: dict):
                 nm = frng.choice([base + "_1", base + "_2", "v_1", "v_2", f"free_{k}", base + "_1_1"])
                 n.replace_input_with(frng.randrange(len(n.inputs)), ir.Value(name=nm))
                 inc("namefix_free_input_values")
-        w = World()
-        w.reg(model)
-        before_snap = snapshot.snapshot(w)
-        bn: dict = {}
-        nb: dict = {}
-        for top in [model.graph] + list(model.functions.values()):
+        def one_round(model=model, mi=mi, suffix=suffix):
+            w = World()
+            w.reg(model)
+            before_snap = snapshot.snapshot(w)
+            bn: dict = {}
+            nb: dict = {}
+            for top in [model.graph] + list(model.functions.values()):
 
-            def visit(g, visible):
-                for v in _graph_values(g):
-                    bn.setdefault(id(v), (v, v.name))
-                cnt: dict = {}
-                for n in g:
-                    cnt[n.name] = cnt.get(n.name, 0) + 1
-                    for v in n.inputs:
-                        if v is not None:
-                            bn.setdefault(id(v), (v, v.name))
-                for n in g:
-                    nb[id(n)] = (n, n.name, cnt[n.name])
+                def visit(g, visible):
+                    for v in _graph_values(g):
+                        bn.setdefault(id(v), (v, v.name))
+                    cnt: dict = {}
+                    for n in g:
+                        cnt[n.name] = cnt.get(n.name, 0) + 1
+                        for v in n.inputs:
+                            if v is not None:
+                                bn.setdefault(id(v), (v, v.name))
+                    for n in g:
+                        nb[id(n)] = (n, n.name, cnt[n.name])
 
-            _walk_scopes(top, visit)
-        tree_names: dict = {}
-        for _v, nm in bn.values():
-            if nm:
-                tree_names[nm] = tree_names.get(nm, 0) + 1
-        inc("namefix_models")
-        if any(c > 1 for c in tree_names.values()):
-            inc("namefix_models_with_duplicate_value_names")
-        if any(not nm for _v, nm in bn.values()):
-            inc("namefix_models_with_missing_value_names")
-        try:
-            pr = NameFixPass()(model)
-        except Exception as e:  # noqa: BLE001
-            found.append({"clause": "namefix-raised", "detail": f"model {mi}: NameFixPass raised {type(e).__name__}: {str(e)[:300]}", "key": f"namefix-raised|{type(e).__name__}{suffix}", "model": mi})
-            continue
-        inc("namefix_checked")
-        problem = check_namefix(model, bn, tree_names, nb)
-        if problem is not None:
-            found.append({"clause": problem[0], "detail": f"model {mi}: " + problem[1], "key": problem[0] + suffix, "model": mi})
-            continue
-        after = snapshot.snapshot(w)
-        a2, b2 = _strip_names(before_snap), _strip_names(after)
-        if a2 != b2:
-            d = snapshot.diff(a2, b2)
-            only_init_order = all(f == "initializers" and sorted(map(str, x)) == sorted(map(str, y)) for (_k, f, x, y) in d)
-            clause = "namefix-reorders-initializers" if only_init_order else "namefix-changed-more-than-names"
-            found.append({"clause": clause, "detail": f"model {mi}: NameFixPass changed something other than names: {str(d[:2])[:400]}", "key": clause, "model": mi})
-        if before_snap != after:
-            inc("namefix_modified")
-        if bool(pr.modified) != (before_snap != after):
-            inc("diag_namefix_modified_flag_inaccurate")
+                _walk_scopes(top, visit)
+            tree_names: dict = {}
+            for _v, nm in bn.values():
+                if nm:
+                    tree_names[nm] = tree_names.get(nm, 0) + 1
+            inc("namefix_models")
+            if any(c > 1 for c in tree_names.values()):
+                inc("namefix_models_with_duplicate_value_names")
+            if any(not nm for _v, nm in bn.values()):
+                inc("namefix_models_with_missing_value_names")
+            try:
+                pr = shared_pass(model)
+            except Exception as e:  # noqa: BLE001
+                found.append({"clause": "namefix-raised", "detail": f"model {mi}: NameFixPass raised {type(e).__name__}: {str(e)[:300]}", "key": f"namefix-raised|{type(e).__name__}{suffix}", "model": mi})
+                return False
+            inc("namefix_checked")
+            problem = check_namefix(model, bn, tree_names, nb)
+            if problem is not None:
+                found.append({"clause": problem[0], "detail": f"model {mi}: " + problem[1], "key": problem[0] + suffix, "model": mi})
+                return False
+            after = snapshot.snapshot(w)
+            a2, b2 = _strip_names(before_snap), _strip_names(after)
+            if a2 != b2:
+                d = snapshot.diff(a2, b2)
+                only_init_order = all(f == "initializers" and sorted(map(str, x)) == sorted(map(str, y)) for (_k, f, x, y) in d)
+                clause = "namefix-reorders-initializers" if only_init_order else "namefix-changed-more-than-names"
+                found.append({"clause": clause, "detail": f"model {mi}: NameFixPass changed something other than names: {str(d[:2])[:400]}", "key": clause, "model": mi})
+            if before_snap != after:
+                inc("namefix_modified")
+            if bool(pr.modified) != (before_snap != after):
+                inc("diag_namefix_modified_flag_inaccurate")
+            return True
+
+        ok = one_round()
+        # the same pass object applied again to the same model after the names were disturbed again
+        # (values the first application has already processed lose or share their names)
+        if ok and rng.random() < 0.6:
+            vals = []
+            for top in [model.graph] + list(model.functions.values()):
+                _walk_scopes(top, lambda g, visible: vals.extend(v for v in _graph_values(g) if not any(v is x for x in vals)))
+            nodes_ = [n for top in [model.graph] + list(model.functions.values()) for n in ir.traversal.RecursiveGraphIterator(top)]
+            for _k in range(rng.choice([1, 2, 3])):
+                if not vals:
+                    break
+                v = rng.choice(vals)
+                how = rng.random()
+                try:
+                    if how < 0.5:
+                        v.name = rng.choice(vals).name  # duplicate another value's name
+                    elif how < 0.8 and not v.is_initializer():
+                        v.name = None if rng.random() < 0.5 else ""
+                    elif nodes_:
+                        rng.choice(nodes_).name = rng.choice(nodes_).name if rng.random() < 0.6 else None
+                except ValueError:
+                    pass  # e.g. an initializer name collision is refused
+            inc("namefix_second_application_same_pass_object")
+            one_round()
     return found
 
 
